@@ -244,6 +244,8 @@ fn do_call(c: &J, idx: usize) {
                         handler_entry(&i2);
                         match arith.as_deref() {
                             Some("sub") => Ok(Value::Number(a.decimal()? - b.decimal()?)),
+                            Some("mul") => Ok(Value::Number(a.decimal()? * b.decimal()?)),
+                            Some("mul10add") => Ok(Value::Number(a.decimal()? * rust_decimal::Decimal::from(10) + b.decimal()?)),
                             _ => Ok(ret.clone().unwrap_or(Value::String(i2.clone()))),
                         }
                     }))
@@ -321,6 +323,12 @@ pub fn run(args: &[String]) {
     if let Some(s) = sc.get("sync") {
         // {"handler": "h1", "then_thread": k}: when handler h1 is entered, thread k is released and h1 waits for it to finish
         *SYNC.lock().unwrap() = Some((s["handler"].as_str().unwrap().to_string(), Arc::new(AtomicBool::new(false)), Arc::new(AtomicBool::new(false))));
+    }
+    // "setup": calls made on this thread before the others start (registrations every thread relies on)
+    if let Some(setup) = sc.get("setup").and_then(|x| x.as_array()) {
+        for c in setup {
+            do_call(c, 0);
+        }
     }
     let g = GATE.get();
     g.enabled.store(sched, Ordering::SeqCst);
